@@ -2,6 +2,7 @@ package main
 
 import (
 	"fmt"
+	"os"
 	"go/types"
 	"strings"
 
@@ -33,6 +34,23 @@ func (x *Exec) doCall(fr *Frame, st *State, c *ssa.CallCommon, site ssa.Instruct
 	v := x.val(fr, st, c.Value)
 	if cl, ok := v.(*Closure); ok {
 		return x.callStatic(fr, st, cl.Fn, args, cl.Bind)
+	}
+	// function values of a named func type with a declared type contract (e.g. `functype Option modifies all(arg0)`)
+	if ft, ok := c.Value.Type().(*types.Named); ok {
+		if fc := x.prog.Cons.ByKey["functype "+typeName(ft)]; fc != nil {
+			x.assumedExtern["functype:"+typeName(ft)]++
+			pre := st.clone()
+			env := &Env{x: x, st: pre, old: pre, vars: map[string]Value{}, vtypes: map[string]types.Type{}, fr: fr}
+			sig := c.Signature()
+			for i := 0; i < sig.Params().Len() && i < len(args); i++ {
+				env.vars[fmt.Sprintf("arg%d", i)] = args[i]
+				env.vtypes[fmt.Sprintf("arg%d", i)] = sig.Params().At(i).Type()
+			}
+			for _, m := range fc.Modifies {
+				x.havocLvalue(env, st, m)
+			}
+			return x.freshResults("dyn", sig.Results())
+		}
 	}
 	x.note("call of unknown function value (havoc)")
 	x.uncontracted["<func value>"]++
@@ -416,9 +434,13 @@ func (x *Exec) applyContract(fr *Frame, st *State, fn *ssa.Function, con *Contra
 		if recv != nil {
 			x.addFact(x.descT(recv, recv))
 		}
+		if os.Getenv("GOVC_DEBUG") != "" {
+			fmt.Fprintf(os.Stderr, "debug: effects call %s at %s\n", key, x.posStr(x.curPos))
+		}
 		x.checkCallEffects(fr, st, pre, recv, key)
 		x.noWriteCheck++
 		x.applyValidationEffects(st, pre, recv)
+		x.restoreSelf(fr, st, pre, recv, key)
 		x.noWriteCheck--
 		for _, m := range con.Modifies {
 			x.havocLvalue(env, st, m)
